@@ -160,7 +160,12 @@ def check(chk):
                   '%s tests membership against %s; the other methods use the resolved addresses, so a host allowed by name is reported LOCAL but never enters a plan (or vice versa)'
                   % (name, sorted(tests.get(name, []))))
     for ev in ('on_up', 'on_add'):
-        f = pol.func('WhiteListRoundRobinPolicy.%s' % ev)
+        own_ = [x for x in wl.body if isinstance(x, ast.FunctionDef) and x.name == ev]
+        if not own_:
+            chk.viol('C21.whitelist', wl, 'WhiteList.%s filters before it adds' % ev,
+                     'WhiteListRoundRobinPolicy does not define %s: it inherits the unfiltered handler of RoundRobinPolicy, so a host outside the white list enters the live set (and the plans) while distance() reports it IGNORED' % ev)
+            continue
+        f = own_[0]
         chk.judge('RoundRobinPolicy.%s(self, host)' % ev in src(f), 'C21.whitelist', f, 'WhiteList.%s adds through RoundRobinPolicy.%s' % (ev, ev), 'white-list %s no longer adds the host' % ev)
     for ev in ('on_down', 'on_remove'):
         own = any(isinstance(f, ast.FunctionDef) and f.name == ev for f in wl.body)
